@@ -278,7 +278,7 @@ def run(ctx):
     ctx.assumptions += ["bounds / features / anchors judged for every geometry except invalid polygons whose holes leave the shell",
                         "centroid and point_on_surface judged only for shapely-valid geometries (tolerance 1e-9 relative)"]
     ctx.must_monitors += ["compute_bounds.post", "geometry_to_shapely.post", "compute_geometric_features.post", "get_geometry_point.post"]
-    ctx.must_reach += [f"geometry/conversion.py::{c}" for c in CONVERTERS] + [
+    ctx.must_reach += [f"?geometry/conversion.py::{c}" for c in CONVERTERS] + ["geometry/conversion.py::geometry_to_shapely"] + [
         "geometry/operations.py::compute_bounds", "geometry/operations.py::get_geometry_point",
         "geometry/features.py::compute_geometric_features"] + [
         f"geometry/features.py::_compute_{n}_features" for n in ("time_stamp", "time_interval", "bounding_box", "point", "line_string", "polygon", "multi_point", "multi_linestring", "multi_polygon")]
